@@ -242,7 +242,7 @@ def eUnvis (x : GNode) : Nat := if x.visited then 0 else x.traced.length
 def wVis (x : GNode) : Nat := if x.visited then 1 else 0
 def eVis (x : GNode) : Nat := if x.visited then x.traced.length else 0
 
-theorem reset1_succ (fuel s : Nat) (g : State) :
+theorem reset1_succ_c (fuel s : Nat) (g : State) :
     reset1 (fuel + 1) s g = if (g.nodes.get s).visited = true then g
       else Gc.overEdges (reset1 fuel) (g.nodes.get s).traced
         (g.upd s fun x => { x with visited := true, adj := 0 }).tick := by
@@ -258,7 +258,7 @@ theorem reset1_post {S : List Nat} (hS : S.Nodup) :
   | zero => intro s g _ _; exact Post.oof0 g
   | succ fuel ih =>
     intro s g hs hc
-    rw [reset1_succ]
+    rw [reset1_succ_c]
     by_cases hv : (g.nodes.get s).visited = true
     · rw [if_pos hv]; exact Post.refl g
     · rw [if_neg hv]
@@ -269,7 +269,7 @@ theorem reset1_post {S : List Nat} (hS : S.Nodup) :
       · intro hc1 hl
         exact Post.overEdges (reset1 fuel) (fun t g ht hcg => ih t g ht hcg) _ _ hl hc1
 
-theorem reset2_succ (fuel s : Nat) (g : State) :
+theorem reset2_succ_c (fuel s : Nat) (g : State) :
     reset2 (fuel + 1) s g = if ¬ (g.nodes.get s).visited = true then g else
       Gc.overEdges (reset2 fuel) (g.nodes.get s).traced
         (g.upd s fun x => { x with visited := false }).tick := by
@@ -285,7 +285,7 @@ theorem reset2_post {S : List Nat} (hS : S.Nodup) :
   | zero => intro s g _ _; exact Post.oof0 g
   | succ fuel ih =>
     intro s g hs hc
-    rw [reset2_succ]
+    rw [reset2_succ_c]
     by_cases hv : (g.nodes.get s).visited = true
     · rw [if_neg (fun h => h hv)]
       apply Post.visit hS hs hc (fun x => { x with visited := false })
@@ -316,7 +316,7 @@ def mgPre (g : State) (t : Nat) : State :=
   let g := g.upd t fun x => { x with adj := old + 1 }
   if old > (g.node t).rc then g.setPanic .adjGtRc else g
 
-theorem markGray_succ (fuel s : Nat) (g : State) :
+theorem markGray_succ_c (fuel s : Nat) (g : State) :
     markGray (fuel + 1) s g = if (g.nodes.get s).color = .gray then g else
       (g.nodes.get s).traced.foldl (fun g t => markGray fuel t (mgPre g t))
         (g.upd s fun x => { x with color := .gray }).tick := by
@@ -359,7 +359,7 @@ theorem markGray_post {S : List Nat} (hS : S.Nodup) :
   | zero => intro s g _ _; exact Post.oof0 g
   | succ fuel ih =>
     intro s g hs hc
-    rw [markGray_succ]
+    rw [markGray_succ_c]
     by_cases hv : (g.nodes.get s).color = .gray
     · rw [if_pos hv]; exact Post.refl g
     · rw [if_neg hv]
@@ -384,7 +384,7 @@ def wScan (x : GNode) : Nat :=
 def eScan (x : GNode) : Nat :=
   (if x.color = .gray then x.traced.length else 0) + (if x.color = .black then 0 else x.traced.length)
 
-theorem scanBlack_succ (fuel s : Nat) (g : State) :
+theorem scanBlack_succ_c (fuel s : Nat) (g : State) :
     scanBlack (fuel + 1) s g =
       (g.nodes.get s).traced.foldl (fun g t =>
           if (g.tickE.nodes.get t).color ≠ .black then scanBlack fuel t g.tickE else g.tickE)
@@ -401,7 +401,7 @@ theorem scanBlack_post {S : List Nat} (hS : S.Nodup) :
   | zero => intro s g _ _ _; exact Post.oof0 g
   | succ fuel ih =>
     intro s g hs hc hb
-    rw [scanBlack_succ]
+    rw [scanBlack_succ_c]
     apply Post.visit hS hs hc (fun x => { x with color := .black })
     · exact ⟨rfl, rfl, rfl, rfl, rfl⟩
     · simp [wScan, hb]
@@ -419,7 +419,7 @@ theorem scanBlack_post {S : List Nat} (hS : S.Nodup) :
       rw [Nat.one_mul] at h
       exact h
 
-theorem scan_succ (fuel s : Nat) (g : State) :
+theorem scan_succ_c (fuel s : Nat) (g : State) :
     scan (fuel + 1) s g = if (g.nodes.get s).color ≠ .gray then g
       else if (g.nodes.get s).adj = (g.nodes.get s).rc then
         Gc.overEdges (scan fuel) (g.nodes.get s).traced
@@ -437,7 +437,7 @@ theorem scan_post {S : List Nat} (hS : S.Nodup) :
   | zero => intro s g _ _; exact Post.oof0 g
   | succ fuel ih =>
     intro s g hs hc
-    rw [scan_succ]
+    rw [scan_succ_c]
     by_cases hv : (g.nodes.get s).color = .gray
     · rw [if_neg (fun h => h hv)]
       by_cases ha : (g.nodes.get s).adj = (g.nodes.get s).rc
@@ -457,7 +457,7 @@ theorem scan_post {S : List Nat} (hS : S.Nodup) :
 def wWhite (x : GNode) : Nat := if x.color = .white then 1 else 0
 def eWhite (x : GNode) : Nat := if x.color = .white then x.traced.length else 0
 
-theorem collectWhite_succ (fuel s : Nat) (gw : State × List Nat) :
+theorem collectWhite_succ_c (fuel s : Nat) (gw : State × List Nat) :
     collectWhite (fuel + 1) s gw = if (gw.1.nodes.get s).color = .white then
       (((gw.1.nodes.get s).traced.foldl
           (fun (gw : State × List Nat) t => collectWhite fuel t (gw.1.tickE, gw.2))
@@ -484,7 +484,7 @@ theorem collectWhite_post {S : List Nat} (hS : S.Nodup) :
   | zero => intro s gw _ _; exact ⟨Post.oof0 gw.1, fun x h => Or.inl h⟩
   | succ fuel ih =>
     intro s gw hs hc
-    rw [collectWhite_succ]
+    rw [collectWhite_succ_c]
     by_cases hv : (gw.1.nodes.get s).color = .white
     · rw [if_pos hv]
       have hfold := fun hc1 hl => Post.foldlJ (fμ := wWhite) (fε := eWhite) (S := S) (n := fuel)
